@@ -12,7 +12,10 @@
 From Verif Require Import Common.
 Open Scope N_scope.
 
-Definition obj := (N * N * N)%type.                (* namespace, name, projection *)
+Definition obj := (N * N * N)%type.                (* namespace, name, content *)
+(* the content c of an object stands for the pair (c mod 10, c / 10): the part a jqFilter of
+   the binding selects (the harness: .data) and the rest (a label) *)
+Definition proj_of (c : N) : N := c mod 10.
 Definition o_ns (o : obj) := fst (fst o).
 Definition o_name (o : obj) := snd (fst o).
 Definition same_key (a b : obj) : bool := N.eqb (o_ns a) (o_ns b) && N.eqb (o_name a) (o_name b).
@@ -23,7 +26,9 @@ Inductive okind := OCreate | OModify | ODelete.
 
 Record snap_in := mkSnapIn {
   si_namespaces : list N; si_names : list N; si_initial : list obj;
-  si_ops : list (okind * obj); si_ghost : option obj; si_restart : bool
+  si_ops : list (okind * obj); si_ghost : option obj; si_restart : bool;
+  si_filter : bool;          (* the binding has a jqFilter *)
+  si_keep : bool             (* keepFullObjectsInMemory *)
 }.
 
 (* the cluster: at most one object per (namespace, name) *)
@@ -78,6 +83,19 @@ Definition caches (i : snap_in) (ghost : option obj) : list obj :=
            (scopes i).
 Definition snapshot (i : snap_in) : list obj := sort_objs (caches i (si_ghost i)).
 Definition snapshot_after_restart (i : snap_in) : list obj := sort_objs (caches i None).
+
+(* what a snapshot entry shows of a cached object (applyFilter, RemoveFullObject): its
+   identity, the filter result when the binding has a jqFilter, the whole object when
+   keepFullObjectsInMemory.  handleWatchEvent replaces the cache entry on EVERY Added /
+   Modified delivery, also when the checksum of the filter result did not change (the event
+   is then suppressed, C08): the entry is that of the object's last delivered state *)
+Definition view := (N * N * option N * option N)%type.
+Definition shown (i : snap_in) (o : obj) : view :=
+  (o_ns o, o_name o,
+   if si_filter i then Some (proj_of (snd o)) else None,
+   if si_keep i then Some (snd o) else None).
+Definition snapshot_view (i : snap_in) : list view := map (shown i) (snapshot i).
+Definition restart_view (i : snap_in) : list view := map (shown i) (snapshot_after_restart i).
 
 (* ---- UpdateSnapshots ---- *)
 Record ub := mkUB { ub_name : N; ub_includes : list N; ub_sched : bool }.
